@@ -2,6 +2,7 @@
 #include "verif_prelude.h"
 #include "realloc.h"
 #include "memcpy_words.h"
+#include "strtoul.h"
 #include "bitmap.loops.h"
 #include HWLOC_VERIF_SRC_BITMAP
 #include "bitmap.contracts.h"
